@@ -28,6 +28,8 @@ import (
 	channeltypes "github.com/cosmos/ibc-go/v8/modules/core/04-channel/types"
 
 	"github.com/dymensionxyz/dymension/v3/app/apptesting"
+	denommetadata "github.com/dymensionxyz/dymension/v3/x/denommetadata"
+	dmtypes "github.com/dymensionxyz/dymension/v3/x/denommetadata/types"
 	irotypes "github.com/dymensionxyz/dymension/v3/x/iro/types"
 	rollapptypes "github.com/dymensionxyz/dymension/v3/x/rollapp/types"
 )
@@ -77,6 +79,9 @@ type c10H struct {
 	complete map[int]bool // a success ack for a handshake packet was observed
 	// the harness opened a channel of the rollapp through a top-level MsgChannelOpenAck the ante handler let through
 	hasCanonChan map[int]bool
+	// success acknowledgements observed for packets that arrived on a rollapp's canonical channel while its
+	// TransferProofHeight was 0 (= completed handshakes; the model's ghost counter nOpen)
+	nOpen map[int]int
 	seqNo    map[int]uint64
 }
 
@@ -103,7 +108,7 @@ func (h *c10H) addr(t uint64) string {
 var c10Pool = []uint64{1, 2, 3, 4, 5, 6, 7, 8, 9, c10IroTok, c10BlockedTok}
 
 func newC10H(t *testing.T) *c10H {
-	h := &c10H{e: newIbcEnv(t, 8), t: t, canonOf: map[int]string{}, connOf: map[int]string{}, complete: map[int]bool{}, seqNo: map[int]uint64{}, hasCanonChan: map[int]bool{}}
+	h := &c10H{e: newIbcEnv(t, 8), t: t, canonOf: map[int]string{}, connOf: map[int]string{}, complete: map[int]bool{}, seqNo: map[int]uint64{}, hasCanonChan: map[int]bool{}, nOpen: map[int]int{}}
 	h.gov = authtypes.NewModuleAddress(govtypes.ModuleName).String()
 	if !h.e.f.App.BankKeeper.BlockedAddr(authtypes.NewModuleAddress(distrtypes.ModuleName)) {
 		t.Fatal("distribution module account is expected to be blocked")
@@ -627,6 +632,18 @@ func (h *c10H) exec(line string) (res string, rc *c10Recv) {
 		h.e.setChannelOpen(ch, cp)
 		h.chans = append(h.chans, c10Chan{ch, kind, ri})
 		return "ok", nil
+	case "premd":
+		// governance registers bank metadata for the IBC denom of the rollapp's native denom on its recorded canonical
+		// channel, outside the handshake: the production handler of a passed CreateDenomMetadataProposal
+		ra, ok := app.RollappKeeper.GetRollapp(h.e.f.Ctx, ibcRollappID(ridx(f[1])))
+		if !ok || ra.ChannelId == "" || ra.GenesisInfo.NativeDenom.Base == "" {
+			return "err", nil // there is no such IBC denom
+		}
+		d := transfertypes.ParseDenomTrace(transfertypes.GetPrefixedDenom("transfer", ra.ChannelId, ra.GenesisInfo.NativeDenom.Base)).IBCDenom()
+		prop := dmtypes.NewCreateMetadataProposal("pre-register", "metadata of a rollapp denom registered by governance", []banktypes.Metadata{{
+			Base: d, Display: d, Name: "preregistered", Symbol: "PRE", DenomUnits: []*banktypes.DenomUnit{{Denom: d, Exponent: 0}}}})
+		handler := denommetadata.NewDenomMetadataProposalHandler(app.DenomMetadataKeeper)
+		return c10Res(h.e.f.Try(func(ctx sdk.Context) error { return handler(ctx, prop) })), nil
 	case "link2":
 		ri := ridx(f[1])
 		conn, ok := h.connOf[ri]
@@ -719,7 +736,16 @@ func (h *c10H) exec(line string) (res string, rc *c10Recv) {
 		rc.data = data
 		h.seqNo[indexOfChan(h.chans, c.id)]++
 		pkt := channeltypes.NewPacket(data, h.seqNo[indexOfChan(h.chans, c.id)], "transfer", "channel-77", "transfer", c.id, clienttypes.NewHeight(1, 100000), 0)
+		closedBefore := false
+		if c.kind == 'c' {
+			if ra, ok := app.RollappKeeper.GetRollapp(h.e.f.Ctx, ibcRollappID(c.r)); ok {
+				closedBefore = ra.GenesisState.TransferProofHeight == 0
+			}
+		}
 		ack, et, err := h.e.recvPacket(pkt, clienttypes.NewHeight(1, atou(m["ph"])))
+		if err == nil && ack != nil && ack.Success() && closedBefore {
+			h.nOpen[c.r]++
+		}
 		if err != nil {
 			if IsPanic(err) {
 				return "panic", rc
@@ -770,6 +796,7 @@ type c10RaSnap struct {
 	Bal              map[uint64]*big.Int
 	Supply           *big.Int
 	Denom            string
+	NOpen            int
 }
 
 type c10Snap struct {
@@ -854,6 +881,7 @@ func (h *c10H) snapshot() *c10Snap {
 			chanOwner[ra.ChannelId] = ri
 		}
 		r.Tph = ra.GenesisState.TransferProofHeight
+		r.NOpen = h.nOpen[ri]
 		r.Bal = map[uint64]*big.Int{}
 		r.Supply = big.NewInt(0)
 		s.Ras = append(s.Ras, r)
@@ -950,7 +978,7 @@ func (s *c10Snap) render(res string) string {
 		if r.HasPlan {
 			te = b2s(r.PlanTE)
 		}
-		fmt.Fprintf(&sb, " | r%d l=%s gi=%s pl=%s plan=%s te=%s ps=%s ch=%s tph=%d md=%s bal=%s", ri, b2s(r.Launched), r.GI, r.PreLaunch, r.Plan, te, r.PlanStart, r.Chan, r.Tph, b2s(r.Md), bal)
+		fmt.Fprintf(&sb, " | r%d l=%s gi=%s pl=%s plan=%s te=%s ps=%s ch=%s tph=%d no=%d md=%s bal=%s", ri, b2s(r.Launched), r.GI, r.PreLaunch, r.Plan, te, r.PlanStart, r.Chan, r.Tph, r.NOpen, b2s(r.Md), bal)
 	}
 	sb.WriteString(" | chans=" + s.Chans)
 	return sb.String()
@@ -1045,7 +1073,7 @@ func (m *c10Mon) check(op, res string, rc *c10Recv, cur *c10Snap, digestBefore, 
 			m.violate("C10/genesis_info_frozen/not-sealed", fmt.Sprintf("r%d launched=%v plan=%v gi=%s", ri, p.Launched, p.HasPlan, p.GI))
 		}
 		// crediting happens only in a successful handshake
-		if !(f[0] == "recv" && rc != nil && rc.ch.kind == 'c' && rc.ch.r == ri) && (!c10BalEq(p.Bal, c.Bal) || p.Tph != c.Tph || p.Md != c.Md) {
+		if !(f[0] == "recv" && rc != nil && rc.ch.kind == 'c' && rc.ch.r == ri) && (!c10BalEq(p.Bal, c.Bal) || p.Tph != c.Tph || (p.Md != c.Md && !(f[0] == "premd" && ridx(f[1]) == ri && !p.Md))) {
 			m.violate("C10/credited_exactly/bridge-state-changed-outside-handshake", fmt.Sprintf("r%d by %s", ri, op))
 		}
 	}
@@ -1068,9 +1096,9 @@ func (m *c10Mon) check(op, res string, rc *c10Recv, cur *c10Snap, digestBefore, 
 			// completed, whether a canonical channel is recorded or not - and over a non-canonical one never
 			if res == "ok" {
 				if !h.complete[c.r] {
-					m.violate("C10/closed/transfer-sent-on-non-canonical-channel-of-canonical-client-before-handshake", op)
+					m.violate("C10/closed/send-allowed-before-handshake", op)
 				} else {
-					m.violate("C10/closed/transfer-sent-on-non-canonical-channel-of-canonical-client", op)
+					m.violate("C10/closed/send-allowed-non-canonical-channel", op)
 				}
 			}
 			return
@@ -1090,9 +1118,9 @@ func (m *c10Mon) check(op, res string, rc *c10Recv, cur *c10Snap, digestBefore, 
 			// channel is neither accepted nor passed on to the transfer stack, and changes nothing
 			if rc.success || rc.isNil {
 				if !h.complete[rc.ch.r] {
-					m.violate("C10/closed/packet-accepted-on-non-canonical-channel-of-canonical-client-before-handshake", op)
+					m.violate("C10/closed/recv-accepted-before-handshake", op)
 				} else {
-					m.violate("C10/closed/packet-accepted-on-non-canonical-channel-of-canonical-client", op)
+					m.violate("C10/closed/recv-accepted-non-canonical-channel", op)
 				}
 			} else if digestBefore != digestAfter {
 				m.violate("C10/closed/state-changed-on-error-ack", op)
@@ -1806,6 +1834,12 @@ func (c *c10Gen) next(s *c10Snap, step int) string {
 			return "chopen " + rt + " via=try"
 		}
 		return "link2 " + rt
+	case k < 15 && !h.complete[ri]:
+		c.r.Hit("premd/before-handshake")
+		return "premd " + rt
+	case k < 15:
+		c.r.Hit("premd/after-handshake")
+		return "premd " + rt
 	case k < 17:
 		return "plainch"
 	case k < 19:
@@ -2033,6 +2067,19 @@ func c10Directed() [][]string {
 			"send c5",
 			"recv c5 ph=9 kind=ft tr=1/5/1/1/1",
 			"recv c3 ph=9 kind=ft tr=1/5/1/1/1",
+		},
+		{ // metadata of the rollapp's IBC denom registered by governance before the handshake: the handshake's own
+			// CreateDenomMetadata fails, the bridge stays closed
+			"reset nra=2",
+			"create r0 " + gi2,
+			"seq r0",
+			"premd r0",
+			"link r0",
+			"premd r0",
+			"premd r0",
+			strings.Replace(hs2, "recv cX", "recv c0", 1),
+			"send c0",
+			strings.Replace(hs2, "recv cX", "recv c0", 1),
 		},
 		{ // trading never enabled: the rollapp stays unlaunchable for 10 years
 			"reset nra=2",
